@@ -509,6 +509,41 @@ func main() {
 	b.WriteString("Inductive fstmt := SAssign (t : string) | SRet (t : string) | SIf (c : string) (th el : list fstmt) | SBad (t : string).\n")
 	b.WriteString("Definition src_policy_apply_filter : list fstmt :=\n  " + filterBody(af, "InventoryPolicyApplyFilter") + ".\n")
 	b.WriteString("Definition src_policy_prune_filter : list fstmt :=\n  " + filterBody(pf, "InventoryPolicyPruneFilter") + ".\n")
+	cm := parse(filepath.Join(repo, "pkg/common/common.go"))
+	b.WriteString("\n(* pkg/common/common.go: lifecycle annotation keys/values and the key -> value map of NoDeletion (identifier names, sorted) *)\n")
+	var cs [][2]string
+	for _, n := range []string{"OnRemoveAnnotation", "OnRemoveKeep", "LifecycleDeleteAnnotation", "PreventDeletion", "InventoryLabel"} {
+		cs = append(cs, [2]string{n, constStr(cm, n)})
+	}
+	b.WriteString("Definition src_common_consts : list (string * string) :=\n  " + pairs(cs) + ".\n")
+	var nd [][2]string
+	if fd := findFunc(cm, "NoDeletion"); fd != nil {
+		ast.Inspect(fd, func(n ast.Node) bool {
+			if cl, ok := n.(*ast.CompositeLit); ok {
+				for _, el := range cl.Elts {
+					if kv, ok := el.(*ast.KeyValueExpr); ok {
+						nd = append(nd, [2]string{render(kv.Key), render(kv.Value)})
+					}
+				}
+				return false
+			}
+			return true
+		})
+		// the decision after the lookup, as text: `if val, found := m[key]; found { return val == value }; return false`
+		var tail []string
+		for _, st := range fd.Body.List[1:] {
+			tail = append(tail, strings.Join(strings.Fields(render(st)), " "))
+		}
+		sort.Slice(nd, func(i, j int) bool { return nd[i][0] < nd[j][0] })
+		b.WriteString("Definition src_no_deletion_map : list (string * string) :=\n  " + pairs(nd) + ".\n")
+		b.WriteString("Definition src_no_deletion_tail : list string := " + strList(tail) + ".\n")
+	} else {
+		b.WriteString("Definition src_no_deletion_map : list (string * string) := [(\"?missing\", \"\")].\nDefinition src_no_deletion_tail : list string := [].\n")
+	}
+	da := parse(filepath.Join(repo, "pkg/object/dependson/annotation.go"))
+	ma := parse(filepath.Join(repo, "pkg/object/mutation/annotation.go"))
+	b.WriteString("Definition src_depends_on_annotation : string := " + coqStr(constStr(da, "Annotation")) + ".\n")
+	b.WriteString("Definition src_mutation_annotation : string := " + coqStr(constStr(ma, "Annotation")) + ".\n")
 	if err := os.MkdirAll(filepath.Dir(out), 0o755); err != nil {
 		fmt.Fprintln(os.Stderr, err)
 		os.Exit(3)
